@@ -116,8 +116,9 @@ class P(Prop):
             notes.append("campaign: skipped (%s)" % str(e)[:100])
             return {"failures": [], "coverage": {"campaign": "skipped"}}
         subsets = [1, 2, 3, 4, 5, 6, 7] if tier != "quick" else rnd.sample([3, 5, 6, 7, 2, 4], 3)
-        for sub in subsets:
-            base = os.path.join(work, "cfg%d" % sub); os.makedirs(base, exist_ok=True)
+        def attempt(sub, att):
+            """one start-up; -> (failure tuple or None, sample or None)"""
+            base = os.path.join(work, "cfg%d_%d" % (sub, att)); os.makedirs(base, exist_ok=True)
             ports = {"E": netprobe.free_port(), "F": netprobe.free_port(), "C": netprobe.free_port()}
             sizes = {"E": 11000, "F": 12000, "C": 13000}
             env = {k: v for k, v in os.environ.items() if not k.startswith("RWS_CONFIG_")}
@@ -132,7 +133,7 @@ class P(Prop):
             log = open(os.path.join(base, "log"), "wb")
             p = subprocess.Popen([exe] + args, cwd=base, env=env, stdout=log, stderr=subprocess.STDOUT)
             try:
-                got, dl = None, time.time() + 10
+                got, dl = None, time.time() + (10 if att == 0 else 30)
                 while time.time() < dl and got is None and p.poll() is None:
                     for k, port in ports.items():
                         try:
@@ -142,20 +143,32 @@ class P(Prop):
                         except OSError:
                             pass
                     time.sleep(0.05)
-                done += 1
                 if got is None:
-                    fails.append(("start-up with sources %s" % bin(sub), "server-not-reachable-on-any-supplied-port", None, {"sources": sub, "args": args}))
-                    continue
+                    return ("start-up with sources %s" % bin(sub), "server-not-reachable-on-any-supplied-port", None, {"sources": sub, "args": args}), None
                 m = re.search(rb"request_allocation_size_in_bytes is (\d+)", got[1])
                 size_seen = int(m.group(1)) + 4000 if m else None
-                if len(samples) < 3:
-                    samples.append({"sources(env=1,file=2,cli=4)": sub, "port_from": got[0], "size_seen": size_seen})
+                sample = {"sources(env=1,file=2,cli=4)": sub, "port_from": got[0], "size_seen": size_seen}
                 if got[0] != want:
-                    fails.append(("start-up with sources %s" % bin(sub), "port-taken-from-%s-expected-%s" % (got[0], want), None, {"sources": sub, "args": args, "ports": ports}))
-                elif size_seen is not None and size_seen != sizes[want]:
-                    fails.append(("start-up with sources %s" % bin(sub), "buffer-size-%s-expected-%s" % (size_seen, sizes[want]), None, {"sources": sub, "args": args}))
+                    return ("start-up with sources %s" % bin(sub), "port-taken-from-%s-expected-%s" % (got[0], want), None, {"sources": sub, "args": args, "ports": ports}), sample
+                if size_seen is not None and size_seen != sizes[want]:
+                    return ("start-up with sources %s" % bin(sub), "buffer-size-%s-expected-%s" % (size_seen, sizes[want]), None, {"sources": sub, "args": args}), sample
+                return None, sample
             finally:
                 p.kill(); p.wait(); log.close()
+        for sub in subsets:
+            # ports are picked free and then bound by the server: another process can take one in between, and a loaded machine starts slowly.
+            # A failure counts only if a second start-up with fresh ports and a longer deadline fails the same way
+            f1, sample = attempt(sub, 0)
+            if f1 is not None:
+                f2, sample2 = attempt(sub, 1)
+                if f2 is not None and f2[1] == f1[1]:
+                    fails.append(f2)
+                else:
+                    notes.append("campaign: start-up %s failed once (%s) and passed when repeated with fresh ports" % (bin(sub), f1[1]))
+                    sample = sample2
+            done += 1
+            if sample and len(samples) < 3:
+                samples.append(sample)
         return {"failures": fails, "coverage": {"campaign": "real binary start-ups", "startups": done, "startup_samples": samples}}
 
     def classify(self, line, out, sig):
